@@ -1,1 +1,190 @@
-(* Props/C12.v -- stub, to be filled in *)
+(* Props/C12.v -- polynomial division: u = q*v + r, deg r < deg v, for every divisor with a nonzero leading
+   coefficient; zero divisors are an error; the routine never panics or spins.
+   Property theorems only: Theorem / exact lemma / Check (pins the statement) / Print Assumptions.
+
+   polydiv : list A -> list A -> res (list A * list A + pderr)   (Model/Poly.v, the code after repair e504d5d)
+     Ok (inl (q, r))    the Rust Ok((q, r))
+     Ok (inr EZeroDiv)  Err("... divide by zero polynomial")
+     Ok (inr EMaxIter)  Err("... exceeded maximum iterations")      Panic k : the Rust code would panic
+   POLYDIV_MAX is regenerated from the source constant MAX on every check run (gen/Params.v).
+
+   What is NOT proved: the size of the floating-point residual u - (q*v + r) (searched by the driver). *)
+From Coq Require Import List Arith ZArith.
+From OV Require Import Base.Panic Base.Arith gen.Params Inst.QcInst Inst.FloatInst Model.Complex Model.Poly
+  Proofs.Poly Proofs.PolyDiv Proofs.PolyDivUnique Legacy.C12Refuted.
+Import ListNotations.
+
+(* ---------------------------------------------------------------- every arithmetic: never spins, never panics *)
+(* No algebraic law is assumed: only that 0 == 0 and that division by a value that is not == 0 returns.
+   Both hold for f64 and Complex<f64> (division never panics there) as much as for exact rationals. *)
+Theorem polydiv_terminates_any_arith : forall (A : Arith), eqb (@zero A) zero = true ->
+  (forall x y : A, eqb y zero = false -> exists z, div x y = Ok z) ->
+  forall u v : list A, v <> [] -> is_zero v = false -> eqb (last v zero) zero = false -> length u <= POLYDIV_MAX ->
+  exists q r, polydiv u v = Ok (inl (q, r)) /\ (is_zero r = true \/ length r < length v).
+Proof. intros A H0 Hd u v Nv Zv Lv Lu. exact (polydiv_total H0 Hd u v Nv Zv Lv Lu). Qed.
+Check polydiv_terminates_any_arith : forall (A : Arith), eqb (@zero A) zero = true ->
+  (forall x y : A, eqb y zero = false -> exists z, div x y = Ok z) ->
+  forall u v : list A, v <> [] -> is_zero v = false -> eqb (last v zero) zero = false -> length u <= POLYDIV_MAX ->
+  exists q r, polydiv u v = Ok (inl (q, r)) /\ (is_zero r = true \/ length r < length v).
+Print Assumptions polydiv_terminates_any_arith.
+(* non-vacuous: binary64 with the committed witness of the repaired defect, (x^2+2x+1) / (49x+1)
+   (stated in Legacy/C12Refuted.v, where the float notations are open) *)
+Example polydiv_terminates_any_arith_nonvacuous :
+  eqb (@zero AF) zero = true /\ (forall x y : AF, eqb y zero = false -> exists z, div x y = Ok z) /\
+  witness2_v <> [] /\ is_zero witness2_v = false /\
+  eqb (last witness2_v zero) zero = false /\ length witness2_u <= POLYDIV_MAX.
+Proof. exact any_arith_hyps_hold_on_witness2. Qed.
+
+(* ... and the loop body runs at most length u = deg u + 1 times: any fuel >= length u gives the same answer *)
+Theorem polydiv_passes_bounded : forall (A : Arith), eqb (@zero A) zero = true ->
+  (forall x y : A, eqb y zero = false -> exists z, div x y = Ok z) ->
+  forall u v : list A, v <> [] -> is_zero v = false -> eqb (last v zero) zero = false -> length u <= POLYDIV_MAX ->
+  forall fuel, length u <= fuel -> polydiv_loop fuel 0 [] u v = polydiv u v.
+Proof. intros A H0 Hd u v Nv Zv Lv Lu. exact (polydiv_passes H0 Hd u v Nv Zv Lv Lu). Qed.
+Check polydiv_passes_bounded : forall (A : Arith), eqb (@zero A) zero = true ->
+  (forall x y : A, eqb y zero = false -> exists z, div x y = Ok z) ->
+  forall u v : list A, v <> [] -> is_zero v = false -> eqb (last v zero) zero = false -> length u <= POLYDIV_MAX ->
+  forall fuel, length u <= fuel -> polydiv_loop fuel 0 [] u v = polydiv u v.
+Print Assumptions polydiv_passes_bounded.
+
+(* the two float instances, hypotheses discharged: EVERY f64 / Complex<f64> input *)
+Theorem polydiv_terminates_f64 : forall u v : list AF,
+  v <> [] -> is_zero v = false -> eqb (last v zero) zero = false -> length u <= POLYDIV_MAX ->
+  exists q r, polydiv u v = Ok (inl (q, r)) /\ (is_zero r = true \/ length r < length v).
+Proof. exact (@polydiv_total AF eq_refl (fun x y _ => ex_intro _ _ eq_refl)). Qed.
+Check polydiv_terminates_f64 : forall u v : list AF,
+  v <> [] -> is_zero v = false -> eqb (last v zero) zero = false -> length u <= POLYDIV_MAX ->
+  exists q r, polydiv u v = Ok (inl (q, r)) /\ (is_zero r = true \/ length r < length v).
+Print Assumptions polydiv_terminates_f64.
+Print Assumptions polydiv_zero_divisor_lemma.   (* closed; ends the listing of float primitives above for the driver's parser *)
+
+Theorem polydiv_terminates_complex_f64 : forall u v : list ACF,
+  v <> [] -> is_zero v = false -> eqb (last v zero) zero = false -> length u <= POLYDIV_MAX ->
+  exists q r, polydiv u v = Ok (inl (q, r)) /\ (is_zero r = true \/ length r < length v).
+Proof. exact (@polydiv_total ACF eq_refl (fun x y _ => ex_intro _ _ eq_refl)). Qed.
+Check polydiv_terminates_complex_f64 : forall u v : list ACF,
+  v <> [] -> is_zero v = false -> eqb (last v zero) zero = false -> length u <= POLYDIV_MAX ->
+  exists q r, polydiv u v = Ok (inl (q, r)) /\ (is_zero r = true \/ length r < length v).
+Print Assumptions polydiv_terminates_complex_f64.
+Print Assumptions polydiv_zero_divisor_lemma.   (* closed; ends the listing of float primitives above for the driver's parser *)
+
+(* EVERY f64 / Complex<f64> input (NaN, infinities, zero leading coefficient included) is classified: the error value
+   exactly for the empty / all-zero divisor, otherwise Ok(q, r) with r zero or shorter than v -- never a panic, never
+   the iteration cap ("the routine never panics or spins", for dividends of at most MAX coefficients) *)
+Theorem polydiv_f64_outcomes : forall u v : list AF, length u <= POLYDIV_MAX ->
+  ((v = [] \/ is_zero v = true) /\ polydiv u v = Ok (inr EZeroDiv)) \/
+  (v <> [] /\ is_zero v = false /\
+   exists q r, polydiv u v = Ok (inl (q, r)) /\ (is_zero r = true \/ length r < length v)).
+Proof. exact (@polydiv_outcomes AF eq_refl (fun x y => ex_intro _ _ eq_refl)). Qed.
+Check polydiv_f64_outcomes : forall u v : list AF, length u <= POLYDIV_MAX ->
+  ((v = [] \/ is_zero v = true) /\ polydiv u v = Ok (inr EZeroDiv)) \/
+  (v <> [] /\ is_zero v = false /\
+   exists q r, polydiv u v = Ok (inl (q, r)) /\ (is_zero r = true \/ length r < length v)).
+Print Assumptions polydiv_f64_outcomes.
+Print Assumptions polydiv_zero_divisor_lemma.   (* closed; ends the listing of float primitives above for the driver's parser *)
+Theorem polydiv_complex_f64_outcomes : forall u v : list ACF, length u <= POLYDIV_MAX ->
+  ((v = [] \/ is_zero v = true) /\ polydiv u v = Ok (inr EZeroDiv)) \/
+  (v <> [] /\ is_zero v = false /\
+   exists q r, polydiv u v = Ok (inl (q, r)) /\ (is_zero r = true \/ length r < length v)).
+Proof. exact (@polydiv_outcomes ACF eq_refl (fun x y => ex_intro _ _ eq_refl)). Qed.
+Check polydiv_complex_f64_outcomes : forall u v : list ACF, length u <= POLYDIV_MAX ->
+  ((v = [] \/ is_zero v = true) /\ polydiv u v = Ok (inr EZeroDiv)) \/
+  (v <> [] /\ is_zero v = false /\
+   exists q r, polydiv u v = Ok (inl (q, r)) /\ (is_zero r = true \/ length r < length v)).
+Print Assumptions polydiv_complex_f64_outcomes.
+Print Assumptions polydiv_zero_divisor_lemma.   (* closed; ends the listing of float primitives above for the driver's parser *)
+(* whenever the answer is Ok(q, r), r is zero or formally shorter than v -- every arithmetic, no hypothesis *)
+Theorem polydiv_remainder_degree : forall (A : Arith) (u v q r : list A),
+  polydiv u v = Ok (inl (q, r)) -> is_zero r = true \/ length r < length v.
+Proof. intros A u v q r E. exact (polydiv_exit u v q r E). Qed.
+Check polydiv_remainder_degree : forall (A : Arith) (u v q r : list A),
+  polydiv u v = Ok (inl (q, r)) -> is_zero r = true \/ length r < length v.
+Print Assumptions polydiv_remainder_degree.
+
+(* ---------------------------------------------------------------- zero divisors are the error value, never a panic *)
+Theorem polydiv_zero_divisor : forall (A : Arith) (u v : list A),
+  (v = [] \/ is_zero v = true) -> polydiv u v = Ok (inr EZeroDiv).
+Proof. intros A u v H. exact (polydiv_zero_divisor_lemma u v H). Qed.
+Check polydiv_zero_divisor : forall (A : Arith) (u v : list A),
+  (v = [] \/ is_zero v = true) -> polydiv u v = Ok (inr EZeroDiv).
+Print Assumptions polydiv_zero_divisor.
+Example polydiv_zero_divisor_nonvacuous : is_zero ([q 0 1; q 0 1; q 0 1] : list AQ) = true.
+Proof. reflexivity. Qed.
+
+(* ---------------------------------------------------------------- any field: u = q*v + r *)
+Theorem polydiv_identity : forall (A : Arith), FieldLaws A -> forall u v q r : list A,
+  polydiv u v = Ok (inl (q, r)) -> forall k, nth k u zero = nth k (padd (pmul q v) r) zero.
+Proof. intros A FL u v q r E k. exact (polydiv_identity_lemma FL u v q r E k). Qed.
+Check polydiv_identity : forall (A : Arith), FieldLaws A -> forall u v q r : list A,
+  polydiv u v = Ok (inl (q, r)) -> forall k, nth k u zero = nth k (padd (pmul q v) r) zero.
+Print Assumptions polydiv_identity.
+Example polydiv_identity_nonvacuous :
+  exists q' r', polydiv ([q 1 1; q 2 1; q 1 1; q (-3) 2] : list AQ) [q 1 1; q 49 1] = Ok (inl (q', r')) /\ length q' = 3.
+Proof. eexists; eexists. split; vm_compute; reflexivity. Qed.
+
+(* the headline over a field: every divisor with a nonzero leading coefficient *)
+Theorem polydiv_field : forall (A : Arith), FieldLaws A -> forall u v : list A,
+  v <> [] -> last v zero <> zero -> length u <= POLYDIV_MAX ->
+  exists q r, polydiv u v = Ok (inl (q, r)) /\ (is_zero r = true \/ length r < length v) /\
+              forall k, nth k u zero = nth k (padd (pmul q v) r) zero.
+Proof. intros A FL u v Nv Lv Lu. exact (polydiv_field_total_lemma FL u v Nv Lv Lu). Qed.
+Check polydiv_field : forall (A : Arith), FieldLaws A -> forall u v : list A,
+  v <> [] -> last v zero <> zero -> length u <= POLYDIV_MAX ->
+  exists q r, polydiv u v = Ok (inl (q, r)) /\ (is_zero r = true \/ length r < length v) /\
+              forall k, nth k u zero = nth k (padd (pmul q v) r) zero.
+Print Assumptions polydiv_field.
+Example polydiv_field_nonvacuous :
+  ([q 1 1; q 49 1] : list AQ) <> [] /\ last ([q 1 1; q 49 1] : list AQ) zero <> zero /\
+  length ([q 1 1; q 2 1; q 1 1] : list AQ) <= POLYDIV_MAX.
+Proof. split; [discriminate|]. split; [discriminate|]. apply Nat.leb_le. vm_compute. reflexivity. Qed.
+
+(* ... and that specification determines q and r (as polynomials): polydiv computes THE Euclidean division *)
+Theorem polydiv_unique : forall (A : Arith), FieldLaws A -> forall u v q r q' r' : list A,
+  v <> [] -> last v zero <> zero ->
+  (forall k, nth k u zero = nth k (padd (pmul q v) r) zero) -> (is_zero r = true \/ length r < length v) ->
+  (forall k, nth k u zero = nth k (padd (pmul q' v) r') zero) -> (is_zero r' = true \/ length r' < length v) ->
+  (forall k, nth k q zero = nth k q' zero) /\ (forall k, nth k r zero = nth k r' zero).
+Proof. intros A FL u v q r q' r' Nv Lv I1 S1 I2 S2. exact (polydiv_unique_lemma FL v Nv Lv u q r q' r' I1 S1 I2 S2). Qed.
+Check polydiv_unique : forall (A : Arith), FieldLaws A -> forall u v q r q' r' : list A,
+  v <> [] -> last v zero <> zero ->
+  (forall k, nth k u zero = nth k (padd (pmul q v) r) zero) -> (is_zero r = true \/ length r < length v) ->
+  (forall k, nth k u zero = nth k (padd (pmul q' v) r') zero) -> (is_zero r' = true \/ length r' < length v) ->
+  (forall k, nth k q zero = nth k q' zero) /\ (forall k, nth k r zero = nth k r' zero).
+Print Assumptions polydiv_unique.
+Example polydiv_unique_nonvacuous :
+  ([q 1 1; q 49 1] : list AQ) <> [] /\ last ([q 1 1; q 49 1] : list AQ) zero <> zero /\
+  (forall k, nth k ([q 1 1; q 50 1; q 49 1] : list AQ) zero = nth k (padd (pmul ([q 1 1; q 1 1] : list AQ) [q 1 1; q 49 1]) [q 0 1]) zero) /\
+  is_zero ([q 0 1] : list AQ) = true.
+Proof.
+  split; [discriminate|]. split; [discriminate|]. split; [|reflexivity].
+  intros k. do 4 (destruct k as [|k]; [apply Qc_eqb_spec; vm_compute; reflexivity|]). now destruct k.
+Qed.
+
+(* the same at Qc, hypothesis discharged *)
+Theorem polydiv_Qc : forall u v : list AQ,
+  v <> [] -> last v zero <> zero -> length u <= POLYDIV_MAX ->
+  exists q r, polydiv u v = Ok (inl (q, r)) /\ (is_zero r = true \/ length r < length v) /\
+              forall k, nth k u zero = nth k (padd (pmul q v) r) zero.
+Proof. exact (polydiv_field_total_lemma AQ_FieldLaws). Qed.
+Check polydiv_Qc : forall u v : list AQ,
+  v <> [] -> last v zero <> zero -> length u <= POLYDIV_MAX ->
+  exists q r, polydiv u v = Ok (inl (q, r)) /\ (is_zero r = true \/ length r < length v) /\
+              forall k, nth k u zero = nth k (padd (pmul q v) r) zero.
+Print Assumptions polydiv_Qc.
+
+(* ---------------------------------------------------------------- the pre-repair loop is refuted by the same hypotheses *)
+(* (Legacy/C12Refuted.v) binary64, u = x, v = 49x: every hypothesis of polydiv_terminates_any_arith holds, the legacy
+   loop returns the iteration-cap error, the repaired one returns Ok -- the theorem above separates the two. *)
+Theorem polydiv_legacy_is_refuted :
+  exists u v : list AF,
+    v <> [] /\ is_zero v = false /\ eqb (last v zero) zero = false /\ length u <= POLYDIV_MAX /\
+    polydiv_legacy u v = Ok (inr EMaxIter) /\
+    exists q r, polydiv u v = Ok (inl (q, r)).
+Proof. exact polydiv_legacy_refuted. Qed.
+Check polydiv_legacy_is_refuted :
+  exists u v : list AF,
+    v <> [] /\ is_zero v = false /\ eqb (last v zero) zero = false /\ length u <= POLYDIV_MAX /\
+    polydiv_legacy u v = Ok (inr EMaxIter) /\
+    exists q r, polydiv u v = Ok (inl (q, r)).
+Print Assumptions polydiv_legacy_is_refuted.
+Print Assumptions polydiv_zero_divisor_lemma.   (* closed; ends the listing of float primitives above for the driver's parser *)
